@@ -1,221 +1,144 @@
 /-
-`_path_segment`'s escaping against the scanner: for a name without a backslash directly before
-`.` or `]`, the escaped name is one clean name run that unescapes back to the name.
+`_path_segment`'s escaping against the scanner: the escaped name is one clean name run that
+unescapes back to the name.  The code's chain of replaces (`/`, `[` escaped, a backslash before
+`.` or `]` doubled) produces exactly the minimal spelling of the C14 printer
+(`escapeSeg false`), so the facts proved for the printer carry over.
 -/
 import Flatland.Path
 import Flatland.Spec.C13
+import Flatland.Spec.C14
 import Proofs.Lemmas.PathScan
 import Proofs.Lemmas.PathInt
+import Proofs.Lemmas.C14Print
 namespace Flatland.Path.Lemmas
-open Flatland.Path Flatland.C13.Spec
+open Flatland.Path Flatland.C13.Spec Flatland.C14.Spec Flatland.C14.Proofs
 
-/-- the general branch of `escapeName` -/
-def esc : Str → Str
-  | [] => []
-  | c :: r => (if c == '/' then ['\\', '/'] else if c == '[' then ['\\', '['] else [c]) ++ esc r
+def dotHead (s : Str) : Bool := s.head? == some '.' || s.head? == some ']'
 
-theorem esc_eq_flatMap : ∀ s : Str,
-    s.flatMap (fun c => if c == '/' then ['\\', '/'] else if c == '[' then ['\\', '['] else [c]) = esc s
-  | [] => rfl
-  | c :: r => by simp only [List.flatMap_cons, esc, esc_eq_flatMap r]
+theorem escapeBody_cons (c : Char) (r : Str) :
+    escapeBody (c :: r) =
+      (if c == '/' then ['\\', '/']
+       else if c == '[' then ['\\', '[']
+       else if c == '\\' && dotHead r then ['\\', '\\']
+       else [c]) ++ escapeBody r := rfl
 
-theorem escapeName_eq (s : Str) (h1 : s ≠ ['.']) (h2 : s ≠ ['.', '.']) : escapeName s = esc s := by
-  unfold escapeName
-  have e1 : (s == ['.']) = false := by simpa using h1
-  have e2 : (s == ['.', '.']) = false := by simpa using h2
-  simp only [e1, e2, Bool.false_eq_true, if_false, esc_eq_flatMap]
+/-- the code's output = the printer's minimal spelling, up to where the extra backslash is
+    attributed (the code doubles the backslash, the printer escapes the dot) -/
+theorem escapeFrom_eq_body : ∀ (s : Str) (p : Bool),
+    escapeFrom false p s = (if p && dotHead s then ['\\'] else []) ++ escapeBody s
+  | [], p => by simp [escapeFrom_nil, dotHead, escapeBody]
+  | c :: r, p => by
+    rw [escapeFrom_cons, escapeFrom_eq_body r (c == '\\'), escapeBody_cons]
+    by_cases h1 : c = '/'
+    · subst h1; simp [escNow, dotHead]
+    · by_cases h2 : c = '['
+      · subst h2; simp [escNow, dotHead]
+      · by_cases h3 : c = '.'
+        · subst h3; cases p <;> simp [escNow, dotHead]
+        · by_cases h4 : c = ']'
+          · subst h4; cases p <;> simp [escNow, dotHead]
+          · by_cases h5 : c = '\\'
+            · subst h5
+              cases hd : dotHead r <;> cases p <;> simp [escNow, dotHead, hd]
+            · simp [escNow, dotHead, h1, h2, h3, h4, h5]
 
-theorem cleanB_nil (last : Bool) : cleanB last [] = true := by rw [cleanB.eq_def]
+theorem escapeName_eq_escapeSeg (s : Str) : escapeName s = escapeSeg false s := by
+  unfold escapeName escapeSeg
+  split
+  · rfl
+  · split
+    · rfl
+    · rw [escapeFrom_eq_body]; simp
 
-/-- the escaped form of a non-empty string not starting with `.` or `]` starts with a character
-    that neither the scanner nor the unescaper treats as escapable -/
-theorem esc_head (d : Char) (r : Str) (h1 : d ≠ '.') (h2 : d ≠ ']') :
-    ∃ h tl, esc (d :: r) = h :: tl ∧ isEscapable h = false ∧ isUnescapable h = false := by
-  by_cases hs : d = '/'
-  · subst hs; exact ⟨'\\', '/' :: esc r, by simp [esc], by decide, by decide⟩
-  · by_cases hb : d = '['
-    · subst hb; exact ⟨'\\', '[' :: esc r, by simp [esc], by decide, by decide⟩
-    · refine ⟨d, esc r, by simp [esc, hs, hb], ?_, ?_⟩
-      · simp [isEscapable, hs, hb, h1]
-      · simp [isUnescapable, hs, hb, h1, h2]
-
-theorem hbd_cons (c : Char) (r : Str) (h : hasBackslashDot (c :: r) = false) : hasBackslashDot r = false := by
-  simp only [hasBackslashDot, Bool.or_eq_false_iff] at h
-  exact h.2
-
-theorem hbd_backslash (d : Char) (r : Str) (h : hasBackslashDot ('\\' :: d :: r) = false) :
-    d ≠ '.' ∧ d ≠ ']' := by
-  simp only [hasBackslashDot, Bool.or_eq_false_iff, List.head?_cons, beq_self_eq_true, Bool.true_and] at h
-  have h1 := h.1
-  constructor
-  · intro hd; subst hd; simp at h1
-  · intro hd; subst hd; simp at h1
-
-theorem ends_tail (last : Bool) (c : Char) (r : Str)
-    (h : last = true ∨ endsWithBackslash (c :: r) = false) :
-    last = true ∨ endsWithBackslash r = false := by
-  rcases h with h | h
-  · exact Or.inl h
-  · right
-    cases r with
-    | nil => rfl
-    | cons d r' => simpa [endsWithBackslash, List.getLast?_cons_cons] using h
-
-theorem clean_esc (last : Bool) : ∀ s : Str, hasBackslashDot s = false →
-    (last = true ∨ endsWithBackslash s = false) → cleanB last (esc s) = true
-  | [], _, _ => cleanB_nil last
-  | c :: r, hb, he => by
-    have ih := clean_esc last r (hbd_cons c r hb) (ends_tail last c r he)
-    by_cases hs : c = '/'
-    · subst hs
-      simp only [esc, beq_self_eq_true, if_true, List.cons_append, List.nil_append]
+/-- clean, with the trailing backslash allowed for a last segment -/
+theorem clean_escapeFrom' (last e : Bool) : ∀ (s : Str) (p : Bool),
+    (last = true ∨ s.getLast? ≠ some '\\') → cleanB last (escapeFrom e p s) = true
+  | [], p, _ => by rw [escapeFrom_nil]; exact cleanB_nil' last
+  | c :: r, p, hl => by
+    have hl' : last = true ∨ r.getLast? ≠ some '\\' := by
+      rcases hl with h | h
+      · exact Or.inl h
+      · exact Or.inr (getLast_tail c r h)
+    have ih := fun p' => clean_escapeFrom' last e r p' hl'
+    rw [escapeFrom_cons]
+    by_cases hx : escNow e p c = true
+    · simp only [hx, if_true, List.cons_append, List.nil_append]
       rw [cleanB_cons]
       simp only [if_true]
-      simpa [isEscapable] using ih
-    · by_cases hbr : c = '['
-      · subst hbr
-        have : (('[' : Char) == '/') = false := by decide
-        simp only [esc, this, Bool.false_eq_true, if_false, beq_self_eq_true, if_true, List.cons_append,
-          List.nil_append]
+      by_cases he : isEscapable c = true
+      · simp only [he, if_true]; exact ih _
+      · simp only [he, Bool.false_eq_true, if_false]
         rw [cleanB_cons]
-        simp only [if_true]
-        simpa [isEscapable] using ih
-      · have hesc : esc (c :: r) = c :: esc r := by simp [esc, hs, hbr]
-        rw [hesc, cleanB_cons]
-        by_cases hbs : c = '\\'
-        · subst hbs
-          simp only [if_true]
-          cases r with
-          | nil =>
-            simp only [esc]
-            rcases he with he | he
-            · exact he
-            · simp [endsWithBackslash] at he
-          | cons d r' =>
-            obtain ⟨hd1, hd2⟩ := hbd_backslash d r' hb
-            obtain ⟨h, tl, heq, hne, _⟩ := esc_head d r' hd1 hd2
-            rw [heq] at ih ⊢
-            simp only [hne, Bool.false_eq_true, if_false]
-            exact ih
-        · simp only [hbs, if_false, Bool.and_eq_true, Bool.not_eq_true', Bool.or_eq_false_iff, beq_eq_false_iff_ne,
-            ne_eq]
-          exact ⟨⟨hs, hbr⟩, ih⟩
+        have hc1 : c ≠ '\\' := by
+          intro e1; subst e1; simp [escNow] at hx
+        have hc2 : (c == '/' || c == '[') = false := by
+          simp only [isEscapable, Bool.or_eq_true, beq_iff_eq, not_or] at he
+          simp [he.1.1, he.2]
+        simp [hc1, hc2, ih]
+    · simp only [hx, Bool.false_eq_true, if_false, List.cons_append, List.nil_append]
+      rw [cleanB_cons]
+      by_cases hb : c = '\\'
+      · subst hb
+        simp only [if_true, beq_self_eq_true]
+        cases r with
+        | nil =>
+          rw [escapeFrom_nil]
+          rcases hl with h | h
+          · exact h
+          · simp at h
+        | cons d r' =>
+          obtain ⟨h, tl, heq, hne, _⟩ := escapeFrom_head e d r'
+          have := ih true
+          rw [heq] at this ⊢
+          simp only [hne, Bool.false_eq_true, if_false]
+          exact this
+      · simp only [hb, if_false]
+        simp only [escNow, Bool.or_eq_true, beq_iff_eq, not_or] at hx
+        simp [hx.1.1, hx.1.2, ih]
 
-theorem unescape_nil : unescape [] = [] := by simp [unescape]
-
-theorem unescape_esc : ∀ s : Str, hasBackslashDot s = false → unescape (esc s) = s
-  | [], _ => unescape_nil
-  | c :: r, hb => by
-    have ih := unescape_esc r (hbd_cons c r hb)
-    by_cases hs : c = '/'
-    · subst hs
-      simp only [esc, beq_self_eq_true, if_true, List.cons_append, List.nil_append]
-      rw [unescape_cons]
-      simp only [if_true]
-      simp [isUnescapable, ih]
-    · by_cases hbr : c = '['
-      · subst hbr
-        have : (('[' : Char) == '/') = false := by decide
-        simp only [esc, this, Bool.false_eq_true, if_false, beq_self_eq_true, if_true, List.cons_append,
-          List.nil_append]
-        rw [unescape_cons]
-        simp only [if_true]
-        simp [isUnescapable, ih]
-      · have hesc : esc (c :: r) = c :: esc r := by simp [esc, hs, hbr]
-        rw [hesc, unescape_cons]
-        by_cases hbs : c = '\\'
-        · subst hbs
-          simp only [if_true]
-          cases r with
-          | nil => simp [esc]
-          | cons d r' =>
-            obtain ⟨hd1, hd2⟩ := hbd_backslash d r' hb
-            obtain ⟨h, tl, heq, _, hne⟩ := esc_head d r' hd1 hd2
-            rw [heq] at ih ⊢
-            simp only [hne, Bool.false_eq_true, if_false]
-            rw [ih]
-        · simp only [hbs, if_false, ih]
-
-theorem esc_ne_nil (c : Char) (r : Str) : esc (c :: r) ≠ [] := by
-  simp only [esc]
-  split <;> (try split) <;> simp
-
-/-- the first character of an escaped name is never `[`, and `/` only ever follows a backslash -/
-theorem esc_plain : ∀ s : Str, s ≠ [] → s ≠ ['.'] → s ≠ ['.', '.'] → PlainSeg (esc s)
-  | [], h, _, _ => absurd rfl h
-  | c :: r, _, h1, h2 => by
-    by_cases hs : c = '/'
-    · subst hs
-      refine ⟨?_, ?_, ?_, ?_⟩ <;> simp [esc]
-    · by_cases hbr : c = '['
-      · subst hbr
-        refine ⟨?_, ?_, ?_, ?_⟩ <;> simp [esc]
-      · have hesc : esc (c :: r) = c :: esc r := by simp [esc, hs, hbr]
-        rw [hesc]
-        refine ⟨?_, ?_, ?_, ?_⟩
-        · simp [hs]
-        · intro h
-          simp only [List.cons.injEq] at h
-          obtain ⟨hc, hr⟩ := h
-          subst hc
-          cases r with
-          | nil => exact h1 rfl
-          | cons d r' => exact esc_ne_nil d r' hr
-        · intro h
-          simp only [List.cons.injEq] at h
-          obtain ⟨hc, hr⟩ := h
-          subst hc
-          cases r with
-          | nil => simp [esc] at hr
-          | cons d r' =>
-            by_cases hd : d = '/'
-            · subst hd; simp [esc] at hr
-            · by_cases hd2 : d = '['
-              · subst hd2; simp [esc] at hr
-              · have : esc (d :: r') = d :: esc r' := by simp [esc, hd, hd2]
-                rw [this] at hr
-                simp only [List.cons.injEq] at hr
-                obtain ⟨hd3, hr'⟩ := hr
-                subst hd3
-                cases r' with
-                | nil => exact h2 rfl
-                | cons e r'' => exact esc_ne_nil e r'' hr'
-        · simp [hbr]
-
-/-- the three facts the scanner lemma needs about an escaped field name -/
-theorem escapeName_facts (last : Bool) (s : Str) (hne : s ≠ []) (hb : hasBackslashDot s = false)
+/-- the facts the scanner lemma needs about an escaped field name: non-empty names only;
+    `last = false` additionally needs the name not to end in a backslash -/
+theorem escapeName_facts (last : Bool) (s : Str) (hne : s ≠ [])
     (he : last = true ∨ endsWithBackslash s = false) :
     escapeName s ≠ [] ∧ cleanB last (escapeName s) = true ∧ PlainSeg (escapeName s) ∧
       unescape (escapeName s) = s := by
+  have hl : last = true ∨ s.getLast? ≠ some '\\' := by
+    rcases he with h | h
+    · exact Or.inl h
+    · right; simpa [endsWithBackslash] using h
+  rw [escapeName_eq_escapeSeg]
   by_cases h1 : s = ['.']
   · subst h1
-    refine ⟨by simp [escapeName], ?_, ⟨by simp [escapeName], by simp [escapeName], by simp [escapeName], by simp [escapeName]⟩, ?_⟩
-    · simp only [escapeName, beq_self_eq_true, if_true]
-      rw [cleanB_cons]; simp [isEscapable, cleanB_nil]
-    · simp only [escapeName, beq_self_eq_true, if_true]
-      rw [unescape_cons]; simp [isUnescapable, unescape_nil]
+    refine ⟨by simp [escapeSeg], ?_, ⟨by simp [escapeSeg], by simp [escapeSeg], by simp [escapeSeg], by simp [escapeSeg]⟩, ?_⟩
+    · simp only [escapeSeg, beq_self_eq_true, if_true]
+      rw [cleanB_cons]; simp [isEscapable, cleanB_nil']
+    · simp only [escapeSeg, beq_self_eq_true, if_true]
+      rw [unescape_cons]; simp [isUnescapable, unescape_nil']
   · by_cases h2 : s = ['.', '.']
     · subst h2
-      have hne' : (['.', '.'] == ['.']) = false := by decide
-      refine ⟨by simp [escapeName], ?_, ⟨by simp [escapeName], by simp [escapeName], by simp [escapeName], by simp [escapeName]⟩, ?_⟩
-      · simp only [escapeName, hne', Bool.false_eq_true, if_false, beq_self_eq_true, if_true]
+      have hne2 : (['.', '.'] == ['.']) = false := by decide
+      refine ⟨by simp [escapeSeg], ?_, ⟨by simp [escapeSeg], by simp [escapeSeg], by simp [escapeSeg], by simp [escapeSeg]⟩, ?_⟩
+      · simp only [escapeSeg, hne2, Bool.false_eq_true, if_false, beq_self_eq_true, if_true]
         rw [cleanB_cons]; simp only [if_true, isEscapable]
         simp only [beq_self_eq_true, Bool.or_true, Bool.true_or, if_true]
-        rw [cleanB_cons]; simp [isEscapable, cleanB_nil]
-      · simp only [escapeName, hne', Bool.false_eq_true, if_false, beq_self_eq_true, if_true]
+        rw [cleanB_cons]; simp [isEscapable, cleanB_nil']
+      · simp only [escapeSeg, hne2, Bool.false_eq_true, if_false, beq_self_eq_true, if_true]
         rw [unescape_cons]; simp only [if_true, isUnescapable]
         simp only [beq_self_eq_true, Bool.or_true, if_true]
-        rw [unescape_cons]; simp [isUnescapable, unescape_nil]
-    · rw [escapeName_eq s h1 h2]
+        rw [unescape_cons]; simp [isUnescapable, unescape_nil']
+    · have e1 : (s == ['.']) = false := by simpa using h1
+      have e2 : (s == ['.', '.']) = false := by simpa using h2
+      simp only [escapeSeg, e1, e2, Bool.false_eq_true, if_false]
       cases s with
       | nil => exact absurd rfl hne
       | cons c r =>
-        exact ⟨esc_ne_nil c r, clean_esc last _ hb he, esc_plain _ hne h1 h2, unescape_esc _ hb⟩
+        exact ⟨escapeFrom_ne_nil false false c r, clean_escapeFrom' last false _ false hl,
+          escapeFrom_plain false _ hne h1 h2, unescape_escapeFrom false _ false⟩
 
 /-! ### positions -/
 
 theorem digits_clean (last : Bool) : ∀ s : Str, (∀ c ∈ s, isAsciiDigit c = true) → cleanB last s = true
-  | [], _ => cleanB_nil last
+  | [], _ => cleanB_nil' last
   | c :: r, h => by
     have hc := h c (by simp)
     have ih := digits_clean last r (fun x hx => h x (by simp [hx]))
@@ -227,7 +150,7 @@ theorem digits_clean (last : Bool) : ∀ s : Str, (∀ c ∈ s, isAsciiDigit c =
     simp [h1, h2, h3, ih]
 
 theorem digits_unescape : ∀ s : Str, (∀ c ∈ s, isAsciiDigit c = true) → unescape s = s
-  | [], _ => unescape_nil
+  | [], _ => unescape_nil'
   | c :: r, h => by
     have hc := h c (by simp)
     have ih := digits_unescape r (fun x hx => h x (by simp [hx]))
